@@ -93,6 +93,13 @@ func (cm *MemClientMgr) Add(cc *ClientConn) {
 	cm.nextClientID.Add(1)
 	binary.BigEndian.PutUint16(cc.ID[:], uint16(cm.nextClientID.Load()))
 
+	// The ID is 16 bits on the wire, so the counter wraps around after 65,535 connections.  Skip 0 and every ID
+	// that is still held by a connected client.
+	for _, inUse := cm.clients[cc.ID]; inUse || cc.ID == (ClientID{}); _, inUse = cm.clients[cc.ID] {
+		cm.nextClientID.Add(1)
+		binary.BigEndian.PutUint16(cc.ID[:], uint16(cm.nextClientID.Load()))
+	}
+
 	cm.clients[cc.ID] = cc
 }
 
